@@ -33,7 +33,7 @@ def plan(tier):
 
 def floors(tier):
     return {"min_decided": 400, "counters": {"nodes_checked": 3000, "duplicates_refused": 100, "universe_probes": 3000, "substrategy_columns": 500,
-                                             "lazy_eager_pairs": 150, "lazy_created_nodes": 200}, "max_undecided_frac": 0.3}
+                                             "lazy_eager_pairs": 150, "lazy_created_nodes": 200, "struct_universe_evals": 800, "dynamic_children": 100}, "max_undecided_frac": 0.3}
 
 
 # ------------------------------------------------------------------ struct
@@ -203,6 +203,37 @@ def case_struct(cs):
         root.update(dts[1])
         par.allocate(1000.0, child="dyn")
         root.update(dts[1])
+    # universe scoping after setup and a few updates (dates fed in order), for every strategy of the tree
+    if root.now != dts[1]:
+        root.update(dts[1])
+    root.update(dts[2])
+    declared = {}
+
+    def decl(node_kids, path, constructed_with_children):
+        tick = [k["name"] for k in node_kids if k["t"] != "strat"]
+        subs = [k["name"] for k in node_kids if k["t"] == "strat"]
+        declared[path] = (tick if (constructed_with_children and node_kids) else None, subs)
+        for k in node_kids:
+            if k["t"] == "strat":
+                decl(k["kids"], path + ">" + k["name"], form != "attach")
+
+    decl(kids, "root", form != "attach")
+    for m in root.members:
+        if not isinstance(m, StrategyBase) or m.full_name not in declared:
+            continue
+        tick, subs = declared[m.full_name]
+        extra = ["dyn"] if ("dyn" in m.children) else []
+        exp = set(list(data.columns) if tick is None else [t for t in tick if t in data.columns]) | set(subs) | set(extra)
+        got = list(m.universe.columns)
+        common.bump(cnt, "struct_universe_evals")
+        if set(got) != exp or len(got) != len(set(got)):
+            return common.result(common.VIOL, sig=[form], nt=True, cnt=cnt, mech="c19_universe_columns",
+                                 witness=dict(w, node=m.full_name, columns=got, expected=sorted(exp), declared_at_construction=tick is not None))
+        for sname in subs:
+            a = m.children[sname].prices.to_numpy(dtype=float)
+            b = m.universe[sname].reindex(m.children[sname].prices.index).to_numpy(dtype=float)
+            if not ((a == b) | (np.isnan(a) & np.isnan(b))).all():
+                return common.result(common.VIOL, sig=[form], nt=True, cnt=cnt, mech="c19_substrategy_column", witness=dict(w, node=m.full_name, child=sname))
     depth = max(p.count(">") for p in preorder("root", kids))
     return common.result(common.HELD, sig=[form, repr(kids)[:120]], nt=depth >= 1, cnt=cnt, sample={"form": form, "description": kids})
 
